@@ -162,6 +162,7 @@ func (gp *GenginePool) getGengine() (*gengineWrapper, error) {
 			gp.runningLock.Lock()
 			gw := gp.freeGengines[0]
 			gp.freeGengines = gp.freeGengines[1:]
+			verifHook("pop", gw.tag, verifLocked(&gp.runningLock))
 			gp.runningLock.Unlock()
 			gp.getEngineLock.Unlock()
 			return gw, nil
@@ -173,12 +174,14 @@ func (gp *GenginePool) getGengine() (*gengineWrapper, error) {
 			gp.additionLock.Lock()
 			gw := gp.additionGengines[0]
 			gp.additionGengines = gp.additionGengines[1:]
+			verifHook("pop", gw.tag, verifLocked(&gp.additionLock))
 			gp.additionLock.Unlock()
 			gp.getEngineLock.Unlock()
 			return gw, nil
 		}
 
 		gp.getEngineLock.Unlock()
+		verifHook("spin", 0, 0)
 	}
 }
 
@@ -189,10 +192,12 @@ func (gp *GenginePool) putGengineLocked(gw *gengineWrapper) {
 		if gw.addition {
 			gp.additionLock.Lock()
 			gp.additionGengines = append(gp.additionGengines, gw)
+			verifHook("push", gw.tag, verifLocked(&gp.additionLock))
 			gp.additionLock.Unlock()
 		} else {
 			gp.runningLock.Lock()
 			gp.freeGengines = append(gp.freeGengines, gw)
+			verifHook("push", gw.tag, verifLocked(&gp.runningLock))
 			gp.runningLock.Unlock()
 		}
 	}()
@@ -222,6 +227,7 @@ func (gp *GenginePool) UpdatePooledRules(ruleStr string) error {
 	gp.ruleBuilder = rbi
 	for i := 0; i < int(gp.max); i++ {
 		gp.rbSlice[i].Kc = gp.ruleBuilder.Kc
+		verifHook("publish", int64(i), 1)
 	}
 
 	gp.clear = false
@@ -335,6 +341,7 @@ func updateIncremental(kc *base.KnowledgeContext, rb *builder.RuleBuilder) {
 	}
 
 	rb.Kc.RuleEntities = newRuleEntities
+	verifHook("incr_mid", 0, 0)
 	rb.Kc.SortRules = newSortRules
 }
 
@@ -361,6 +368,7 @@ func (gp *GenginePool) UpdatePooledRulesIncremental(ruleStr string) error {
 	//update instance
 	for i := 0; i < int(gp.max); i++ {
 		gp.rbSlice[i].Kc = gp.ruleBuilder.Kc
+		verifHook("publish", int64(i), 2)
 	}
 
 	gp.clear = false
@@ -375,6 +383,7 @@ func (gp *GenginePool) ClearPoolRules() {
 	gp.clear = true
 	for i := 0; i < int(gp.max); i++ {
 		gp.rbSlice[i].Kc.ClearRules()
+		verifHook("publish", int64(i), 4)
 	}
 }
 
@@ -390,6 +399,7 @@ func (gp *GenginePool) RemoveRules(ruleNames []string) error {
 
 	for _, rb := range gp.rbSlice {
 		_ = rb.RemoveRules(ruleNames)
+		verifHook("publish", -1, 3)
 	}
 	return nil
 }
